@@ -75,9 +75,6 @@ class Ctx:
         atexit.register(shutil.rmtree, self.tmp, True)
         with open(os.path.join(ROOT, "known_findings.json")) as f:
             self.known = json.load(f)["findings"]
-        for extra in sorted(glob.glob(os.path.join(ROOT, "known_findings.d", "*.json"))):
-            with open(extra) as f:
-                self.known.extend(json.load(f)["findings"])
 
     # ------------------------------------------------------------------ coq
     def hygiene(self):
